@@ -78,6 +78,9 @@ C = [
  ('c18_describe_children_swapped', 'C18', ['dd'], 'parser.rs', r'(get_binary_descriptor\(op\.to_string\(\)\)\(\n                op\.to_string\(\),\n                )lhs\.describe\(\),\n                rhs\.describe\(\),', r'\1rhs.describe(),\n                lhs.describe(),'),
  ('c18_describe_list_uses_chain_descriptor', 'C18', ['dd'], 'parser.rs', r'Self::List\(values\) => DescriptorManager::new\(\)\.get_list_descriptor\(\)', 'Self::List(values) => DescriptorManager::new().get_chain_descriptor()'),
  ('c18_describe_reference_by_constant_name', 'C18', ['dd'], 'parser.rs', r'\.get_reference_descriptor\(name\.to_string\(\)\)', '.get_reference_descriptor("x".to_string())'),
+ ('c18_default_binary_operand_order', 'C18', ['ds'], 'descriptor.rs', r'lhs \+ &op \+ &rhs', 'op + &lhs + &rhs'),
+ ('c18_default_list_separator', 'C18', ['ds'], 'descriptor.rs', r'"\["\.to_string\(\) \+ &params\.join\(","\)', '"[".to_string() + &params.join(";")'),
+ ('c18_default_map_entry_colon', 'C18', ['ds'], 'descriptor.rs', r'tmp\.push\(k \+ ":" \+ &v\)', 'tmp.push(k + "=" + &v)'),
 ]
 # mutations that must still verify: behaviour-equivalent edits (a failure here is a false alarm of the overlay)
 EQUIVALENT = [
